@@ -11,6 +11,7 @@ mod wireshape;
 mod wirecodec;
 mod parsers;
 mod store;
+mod startup;
 mod register;
 mod distance;
 mod fetcher;
@@ -42,6 +43,7 @@ fn main() {
         ("WireCodec", wirecodec::generate),
         ("Parsers", parsers::generate),
         ("Store", store::generate),
+        ("Startup", startup::generate),
         ("Register", register::generate),
         ("Distance", distance::generate),
         ("Fetcher", fetcher::generate),
